@@ -32,9 +32,14 @@ func runC04(p *core.Prog, r *core.Report) {
 		c04Gate(c, pr, final)
 		c04NoAbortAfterAck(c, pr, final)
 		c08Accept(c, pr)
+		// the gate is the ok flags: every Start resets them before it can return successfully, every
+		// Update visits every peer (shared R08.5)
+		c08Waiting(c, pr)
+		c04ShareBinding(c, pr, final)
 	}
 	c07Engine(c)
 	c04Plumbing(c)
+	aliasedInPlaceUpdates(c, "RA.1", "ecdsa/resharing", "eddsa/resharing", "crypto/vss", "crypto", "common")
 }
 
 // roleFact: the committee-role accessor (IsNewCommittee / IsOldCommittee) is known to have returned `want`.
